@@ -530,6 +530,56 @@ func runC06(res *Result, rng *RNG, tier string, outDir string) {
 		exprDescs = append(exprDescs, "malformed "+es)
 	}
 
+	// ---- (e) a string operand whose index no table entry backs (an attacker's token can carry
+	// one up to the evaluator through an authorizer snapshot; Str then yields the placeholder
+	// "<invalid symbol N>"): every string operator, against an EMPTY table and a one-entry table,
+	// must behave exactly as on that placeholder string — and never index out of range
+	for _, tbl := range []datalog.SymbolTable{{}, {"unrelated"}} {
+		for _, idx := range []uint64{1024 + uint64(len(tbl)), 1030, 1 << 40} {
+			ph := fmt.Sprintf("<invalid symbol %d>", idx)
+			for op := 0; op < 17; op++ {
+				for _, unary := range []bool{false, true} {
+					if unary && op > 2 {
+						continue
+					}
+					var de datalog.Expression
+					var se SExpr
+					if unary {
+						de = datalog.Expression{datalog.Value{ID: datalog.String(idx)}, sUnaryOp(op)}
+						se = SExpr{{Kind: 0, Val: aStr(ph)}, {Kind: 1, Un: op}}
+					} else {
+						de = datalog.Expression{datalog.Value{ID: datalog.String(idx)}, datalog.Value{ID: datalog.String(idx)}, sBinaryOp(op)}
+						se = SExpr{{Kind: 0, Val: aStr(ph)}, {Kind: 0, Val: aStr(ph)}, {Kind: 2, Bin: op}}
+					}
+					t := append(datalog.SymbolTable{}, tbl...)
+					got := func() (o evalObs) {
+						defer func() {
+							if r := recover(); r != nil {
+								o = evalObs{Panic: fmt.Sprint(r)}
+							}
+						}()
+						res, err := de.Evaluate(map[datalog.Variable]*datalog.Term{}, &t)
+						if err != nil {
+							return evalObs{Err: exprErrClass(err)}
+						}
+						st := termFromDatalog(&t, res)
+						return evalObs{Val: &st}
+					}()
+					addRx(ph, ph)
+					want := refEval(se, nil)
+					res.Count(fmt.Sprintf("dangling %d %v %d %d", op, unary, idx, len(tbl)), true)
+					res.Dist("dangling-string-operand")
+					replay := map[string]interface{}{"operator": exprString(se), "string_index": idx, "table": fmt.Sprint([]string(tbl)), "got": got.String(), "want": want.String()}
+					if got.Panic != "" {
+						res.Violate("panic:dangling-string-operand", fmt.Sprintf("evaluating %s on a string index %d that the table %q does not hold panicked: %s", exprString(se), idx, []string(tbl), got.Panic), replay)
+					} else if !obsAgree(got, want) {
+						res.Violate("dangling-string-operand", fmt.Sprintf("string index %d (table %q): %s gives %s, on the placeholder string it denotes the operator table gives %s", idx, []string(tbl), exprString(se), got, want), replay)
+					}
+				}
+			}
+		}
+	}
+
 	// ---- (d) integer boundary sweep: arithmetic and comparison operators over the integer panel
 	ipanel := c06IntPanel(rng.Fork(), tier)
 	var intRows, intDescs []string
